@@ -138,13 +138,18 @@ class Gram:
     # -- printing ---------------------------------------------------------------
     def to_fan(self, with_constraints: bool = True) -> str:
         lines = []
+        # declaration order: meta["cons_first"] constraints are printed before the rules (their
+        # symbols are defined further down), the rest after them
+        n_first = int(self.meta.get("cons_first", 0)) if with_constraints else 0
+        for c in self.constraints[:n_first]:
+            lines.append(c)
         for name, node in self.rules.items():
             s = "<%s> ::= %s" % (name, fan(node, top=True))
             if name in self.generators:
                 s += " := " + self.generators[name][0]
             lines.append(s)
         if with_constraints:
-            for c in self.constraints:
+            for c in self.constraints[n_first:]:
                 lines.append(c)
         lines.extend(self.py_prelude)
         return "\n".join(lines) + "\n"
